@@ -571,6 +571,8 @@ fn short_programs() -> Vec<Vec<Op>> {
         vec![new.clone(), l(0, 1), Shrink { b: 0, size: 0, align: 1 }, Dealloc { b: 0 }],
         vec![new.clone(), TryWith { ty: 0, ety: 0, ok: false, clos: Clos::Nothing, fallible: true }, l(1, 1)],
         vec![new.clone(), l(5000, 16), l(1, 1), Reset, l(2, 2)],
+        vec![new.clone(), l(0, 64), l(0, 4096), l(1, 1)],
+        vec![new.clone(), l(0, 32), Iter, l(0, 1)],
     ]
 }
 
